@@ -14,4 +14,6 @@ def delAtomFields : List String := ["_coord", "_array_length", "_annot", "_bonds
 def subarrayFields : List String := ["_coord", "_bonds", "_box", "_annot"]
 /-- mandatory annotation categories created by `__init__` -/
 def mandatory : List String := ["chain_id", "res_id", "ins_code", "res_name", "hetero", "atom_name", "element"]
+/-- (category, dtype given to `add_annotation` in `__init__`) -/
+def mandatoryDtypes : List (String × String) := [("chain_id", "U4"), ("res_id", "int"), ("ins_code", "U1"), ("res_name", "U5"), ("hetero", "bool"), ("atom_name", "U6"), ("element", "U2")]
 end BiotiteModel.Gen.C01
